@@ -10,7 +10,7 @@ import tlslib, json
 
 OPS = ["rand_bytes", "sm2_keygen", "sm2_sign", "sm2_sign_fixlen", "sm2_do_sign", "sm2_sign_ctx", "sm2_encrypt", "sm2_encrypt_fixlen", "sm2_do_encrypt", "sm2_encrypt_ctx",
        "pkcs8_encrypt", "sm9_sign_master_keygen", "sm9_enc_master_keygen", "sm9_sign", "sm9_encrypt", "sm9_kem", "sm9_exch_1A", "x509_cert_sign", "cms_sign", "cms_envelop",
-       "tls_record_iv"]
+       "tls_record_iv", "sm3_xmss_keygen"]
 PERSIST = ["sm2_sign_ctx_persist"]            # one context across a whole history (nonces precomputed in batches of 32)
 HISTORY = ["sm2_do_sign", "sm2_sign_ctx", "sm2_do_encrypt", "sm2_keygen", "sm9_sign", "tls_record_iv", "rand_bytes", "sm9_exch_1A"]
 
